@@ -7,6 +7,12 @@
                "fun"    int fK() { return <prev>; }       (function body reads; function_t::depends)
                "flocal" int fK() { int t = <prev>; return t; }      (also array / struct locals: flocalarr, flocalrec)
                "fcall"  int fK() { return idf(<prev>); }  (passes through a by-value call)
+               reads at other positions of a function body - every one is a read that the value may depend on:
+               "flhsidx"   int fK() { int t[2] = {0, 0}; t[<prev> % 2] = 1; return t[0]; }   subscript of an assignment target
+               "fcompound" int fK() { int t = 0; t += <prev>; return t; }                      operand of a compound assignment
+               "fcond"     int fK() { if (<prev> > 0) return 1; return 0; }                   condition
+               "floop"     int fK() { int t = 0; for (t = 0; t < <prev>; t++) { } return t; } loop bound
+               "fwhile"    int fK() { int t = 0; while (t < <prev>) { t++; } return t; }
    and then used in a compile-time CONTEXT.
    State per link: sem  = TRUE iff its value depends only on literals, constants, binders (least fixpoint);
                    dep  = the implementation's view: the set of non-function symbols collect_possible_reads returns for
@@ -23,7 +29,8 @@ EXTENDS Integers, Sequences, FiniteSets, TLC, Json
 CONSTANTS MaxLinks
 
 Leaves == {"lit", "const", "binder", "mut", "mutelem", "constelem"}
-Links == {"cinit", "fun", "flocal", "flocalarr", "flocalrec", "fcall", "tinit"}     \* tinit: typedef-free; const initialised inside the template declaration
+FunLinks == {"fun", "flocal", "flocalarr", "flocalrec", "fcall", "flhsidx", "fcompound", "fcond", "floop", "fwhile"}
+Links == {"cinit", "tinit"} \cup FunLinks     \* tinit: typedef-free; const initialised inside the template declaration
 Contexts == {"arrsize_g", "arrsize_t", "arrsize_f", "range_g", "range_t", "scalar_g", "init_g", "init_t", "init_meta",
              "valarg", "crefarg", "select_dom", "iter_dom", "quant_dom"}
 
@@ -52,7 +59,7 @@ AddLink ==
                   \* const symbol itself is always in compileTimeComputableValues
                   /\ err' = (err \/ ~CTC(Cur))
                   /\ dep' = Append(dep, {"c"})
-             [] k \in {"fun", "flocal", "flocalarr", "flocalrec", "fcall"} ->
+             [] k \in FunLinks ->
                   \* function_t::depends = reads of the body minus locals/parameters; a use of the function reads depends
                   /\ err' = err
                   /\ dep' = Append(dep, Cur)
@@ -74,10 +81,13 @@ Emit == PrintT(<<"EMIT", ToJson([leaf |-> leaf, chain |-> chain, sem |-> CurSem,
 (* a chain TA <- P1 <- P2: each Pi passes its own fresh parameter through (passes = 0..2); the end is what the outermost
    parameter is finally bound to: "free" (listed in the system line unbound), a literal, a const, a mutable global *)
 InstEnds == {"free", "lit", "const", "mut"}
-InstAccepted(passes, end, use) ==
+(* hops: the number of template-local const initialisers between the parameter and the array size
+   (const int h1 = N; const int h2 = h1 + 1; int a[h2];): StatementBuilder::collectDependencies closes the set of symbols an
+   array size depends on over initialisers (work list), template_t::restricted holds the parameters among them *)
+InstAccepted(passes, end, use, hops) ==
     IF use = "arrsize" THEN end \in {"lit", "const"}      \* a free process parameter is never accepted inside an array size
     ELSE end \in {"free", "lit", "const"}                  \* plain use (a guard): only a non-computable argument is rejected
-InstCases == {[passes |-> n, end |-> e, use |-> u, accepted |-> InstAccepted(n, e, u)] :
-                n \in 0..2, e \in InstEnds, u \in {"arrsize", "guard"}}
+InstCases == {[passes |-> n, end |-> e, use |-> u, hops |-> h, accepted |-> InstAccepted(n, e, u, h)] :
+                n \in 0..2, e \in InstEnds, u \in {"arrsize", "guard"}, h \in 0..3}
 EmitInst == PrintT(<<"EMIT", ToJson([inst |-> InstCases])>>)
 =============================================================================
